@@ -10,8 +10,50 @@ def has_node(g, n):
     return n in g.nodes
 
 
+class Num:
+    """Real number (or numpy vector, treated componentwise) with tolerant equality: contract text over reals is
+    evaluated natively in floating point, so `==` means equal up to rounding (rtol 1e-9, atol 1e-9)."""
+    __slots__ = ('v',)
+
+    def __init__(self, v):
+        self.v = v.v if isinstance(v, Num) else v
+
+    @staticmethod
+    def _u(x):
+        return x.v if isinstance(x, Num) else x
+
+    def __add__(self, o): return Num(self.v + Num._u(o))
+    __radd__ = __add__
+    def __sub__(self, o): return Num(self.v - Num._u(o))
+    def __rsub__(self, o): return Num(Num._u(o) - self.v)
+    def __mul__(self, o): return Num(self.v * Num._u(o))
+    __rmul__ = __mul__
+    def __truediv__(self, o): return Num(self.v / Num._u(o))
+    def __rtruediv__(self, o): return Num(Num._u(o) / self.v)
+    def __neg__(self): return Num(-self.v)
+
+    def __eq__(self, o):
+        import numpy as np
+        return bool(np.allclose(self.v, Num._u(o), rtol=1e-9, atol=1e-9))
+
+    def __ne__(self, o): return not self.__eq__(o)
+    def __lt__(self, o): return bool(self.v < Num._u(o)) and not self.__eq__(o)
+    def __le__(self, o): return bool(self.v <= Num._u(o)) or self.__eq__(o)
+    def __gt__(self, o): return bool(self.v > Num._u(o)) and not self.__eq__(o)
+    def __ge__(self, o): return bool(self.v >= Num._u(o)) or self.__eq__(o)
+    def __hash__(self): return 0
+    def __repr__(self): return 'Num(%r)' % (self.v,)
+
+
+def wrap(v):
+    import numpy as np
+    if isinstance(v, (float, np.ndarray, np.floating)):
+        return Num(v)
+    return v
+
+
 def attr(g, n, k):
-    return g.nodes[n][k]
+    return wrap(g.nodes[n][k])
 
 
 def has_attr(g, n, k):
@@ -23,7 +65,7 @@ def has_edge(g, u, v):
 
 
 def eattr(g, u, v, k):
-    return g.edges[u, v][k]
+    return wrap(g.edges[u, v][k])
 
 
 def has_eattr(g, u, v, k):
